@@ -182,9 +182,42 @@ func pickConsume(r *rt.Rand) string {
 	return "eager"
 }
 
+// genC05Takeover: a cold node (empty event cache) takes over at the revision the old one had
+// reached; watches on it start below, at and above that revision.
+func genC05Takeover(r *rt.Rand) *world.Scenario {
+	sc := &world.Scenario{Prefix: prefix, InitRev: pickInitRev(r), Seed: r.Uint64(), Engine: "memkv", Class: "watch-on-a-node-that-took-over"}
+	sc.Extra = map[string]int64{"nodes": 2}
+	sc.WatchCache = []int{0, 8, 64}[r.Intn(3)]
+	keys := []string{prefix + "/a", prefix + "/b", prefix + "/pods/ns/p1"}
+	var cl world.Client
+	n := 1 + r.Intn(6)
+	for i := 0; i < n; i++ {
+		cl.Ops = append(cl.Ops, world.Op{K: "update", Key: keys[r.Intn(len(keys))], Val: fmt.Sprintf("old%d", i), Rev: world.Rev{M: "known"}})
+	}
+	cl.Ops = append(cl.Ops, world.Op{K: "waitcommitted"}, world.Op{K: "takeover", Node: 1, W: 0})
+	wid := 0
+	watch := func() {
+		wid++
+		start := []world.Rev{{M: "committed", N: 0}, {M: "committed", N: -1}, {M: "committed", N: 1}, {M: "zero"}, {M: "committed", N: -int64(2 + r.Intn(3))}}[r.Intn(5)]
+		cl.Ops = append(cl.Ops, world.Op{K: "watch", Key: []string{prefix + "/", prefix + "/a"}[r.Intn(2)], Rev: start, W: wid, Consume: "eager", Node: 1})
+	}
+	watch()
+	for i := 0; i < r.Intn(6); i++ {
+		cl.Ops = append(cl.Ops, world.Op{K: "update", Key: keys[r.Intn(len(keys))], Val: fmt.Sprintf("new%d", i), Rev: world.Rev{M: "known"}, Node: 1})
+		if r.Chance(0.4) {
+			watch()
+		}
+	}
+	sc.Clients = []world.Client{cl}
+	return sc
+}
+
 func genC05(r *rt.Rand, tier string, idx int) *world.Scenario {
 	if idx%40 == 39 {
 		return genC05Overflow(r)
+	}
+	if idx%10 == 7 {
+		return genC05Takeover(r)
 	}
 	sc := &world.Scenario{Prefix: prefix, InitRev: pickInitRev(r), Seed: r.Uint64(), Engine: "memkv", Class: "registration-races"}
 	sc.WatchCache = []int{1, 2, 3, 5, 8, 64, 0}[r.Intn(7)]
